@@ -50,6 +50,7 @@ type Config struct {
 	Session          *solver.Session
 	InitPkgs         func(path string) bool // run this package's initialiser?
 	PruneBranch      bool
+	ConcreteFmt      bool                      // fmt.Sprintf/Fprintf and strings.Builder compute real text where all operands are concrete (default: opaque stubs)
 	SymbolicMapOrder bool                      // every range over a map visits its entries in an arbitrary (symbolic) order
 	SkipInitFuncs    func(pkgPath string) bool // do not run the user init() functions of these packages
 	ForkFuncs        map[string]bool           // functions executed path by path (no merging inside)
